@@ -3,8 +3,10 @@ from . import shapes as S
 from .shapes import RT, Field, TypeDef, Variant
 
 ISIZE_MIN = -(2 ** 63)
+ISIZE_MAX = 2 ** 63 - 1
 
 FIELD_NAMES = ["a", "b", "c", "d", "e", "x", "y", "value", "inner", "data", "f1", "f2", "left", "right"]
+UNDERSCORE_NAMES = ["_id", "__raw", "_marker", "_x", "x_", "_"  "a"]
 RAW_NAMES = ["r#type", "r#fn", "r#match", "r#struct", "r#loop"]
 VARIANT_NAMES = ["V0", "V1", "V2", "V3", "V4", "Alpha", "Beta", "Gamma", "Unit", "Pair", "Rec"]
 RENAMES = ["renamed", "Other", "k0", "Zed", "alias"]
@@ -52,6 +54,7 @@ class Opts:
         self.p_repr = 0.15          # chance of a #[repr(..)] (and explicit discriminants) on an enum
         self.full_exprs = False     # use expressions that need educe's `full` feature (syn/full)
         self.p_uniform = 0.25       # chance that all fields of a variant share one kind
+        self.p_rank_edge = 0.2      # chance (per variant) of explicit ranks in the range of the default ranks
         self.rich = False           # allow the rich generics flavour (two lifetimes, two type
                                     # parameters, a const parameter, a user where-clause)
         self.__dict__.update(kw)
@@ -154,8 +157,11 @@ def random_type(rng, traits, opts=None):
                 n = rng.choice(RAW_NAMES)
             elif o.names:
                 n = o.names.field(rng)
+            elif used_names and rng.random() < 0.12 and not all(u.startswith("r#") for u in used_names):
+                # a sibling of a name already in this variant: `x` next to `_x` / `__x`
+                n = rng.choice(["_", "__"]) + rng.choice(sorted(u for u in used_names if not u.startswith("r#")))
             else:
-                n = rng.choice(FIELD_NAMES)
+                n = rng.choice(FIELD_NAMES + UNDERSCORE_NAMES) if rng.random() < 0.3 else rng.choice(FIELD_NAMES)
             if n not in used_names:
                 used_names.add(n)
                 return n
@@ -367,6 +373,29 @@ def decorate(rng, td, o):
                 if s:
                     s["carrier"] = rng.choice(carrier_opts)
                     f.sem[trait] = s
+            if allow_rank and len(v.fields) >= 2 and rng.random() < o.p_rank_edge:
+                # explicit ranks in the range of the default ranks (isize::MIN + declaration position): legal as long as
+                # they avoid the default rank of every other compared, unranked field
+                live = [f for f in v.fields if not f.sem.get(trait, {}).get("ignore")]
+                if len(live) >= 3 and rng.random() < 0.6:
+                    # ignored fields in front of compared ones: declaration position and "number of compared fields so
+                    # far" then differ
+                    for f in sorted(rng.sample(live, rng.randint(1, len(live) - 2)), key=lambda f: f.slot)[:2]:
+                        f.sem[trait] = {"ignore": True, "carrier": rng.choice(carrier_opts)}
+                    live = [f for f in v.fields if not f.sem.get(trait, {}).get("ignore")]
+                holes = [ISIZE_MIN + g.slot for g in v.fields if g not in live and g.slot > 0]
+                for f in rng.sample(live, min(len(live), rng.randint(1, 2))):
+                    s = f.sem.get(trait) or {"carrier": rng.choice(carrier_opts)}
+                    taken = {ISIZE_MIN + g.slot for g in live if g is not f and g.sem.get(trait, {}).get("rank") is None}
+                    taken |= {g.sem[trait]["rank"] for g in live if g is not f and g.sem.get(trait, {}).get("rank") is not None}
+                    cands = [ISIZE_MIN + p for p in range(1, len(v.fields) + 3) if ISIZE_MIN + p not in taken]
+                    cands += [r for r in (ISIZE_MAX, ISIZE_MAX - 1) if r not in taken]
+                    free_holes = [h for h in holes if h not in taken]
+                    if free_holes and rng.random() < 0.7:
+                        cands = free_holes
+                    if cands:
+                        s["rank"] = rng.choice(cands)
+                        f.sem[trait] = s
 
     if "Debug" in tset:
         ts = {}
